@@ -29,7 +29,12 @@ class SocketIO:
         "Read exactly 'bytes' bytes from the socket."
         buf = b""
         while len(buf) < numbytes:
-            t = self.sock.recv(numbytes - len(buf))
+            try:
+                t = self.sock.recv(numbytes - len(buf))
+            except ConnectionError:
+                # a peer that died with unread input resets the connection
+                # instead of closing it: the stream is over all the same
+                t = b""
             if not t:
                 raise EOFError("expected %d bytes, got %d" % (numbytes, len(buf)))
             buf += t
